@@ -283,9 +283,43 @@ def _common_attrs(spec, k):
     return a
 
 
+_OTHER = {}
+
+
+def other_material():
+    """Key material of kinds other than RSA: {name: (public DER SPKI, public PEM, private DER PKCS#8, private PEM)}."""
+    if not _OTHER:
+        from cryptography.hazmat.primitives.asymmetric import ed25519, ed448, x25519, x448, ec, dsa
+        from cryptography.hazmat.primitives import serialization as ser
+        from cryptography.hazmat.backends import default_backend
+        makers = {'ed25519': ed25519.Ed25519PrivateKey.generate, 'ed448': ed448.Ed448PrivateKey.generate,
+                  'x25519': x25519.X25519PrivateKey.generate, 'x448': x448.X448PrivateKey.generate,
+                  'ecp256': lambda: ec.generate_private_key(ec.SECP256R1(), default_backend()),
+                  'dsa': lambda: dsa.generate_private_key(1024, default_backend())}
+        for name, mk in makers.items():
+            try:
+                k = mk()
+                pub = k.public_key()
+                _OTHER[name] = (pub.public_bytes(ser.Encoding.DER, ser.PublicFormat.SubjectPublicKeyInfo),
+                                pub.public_bytes(ser.Encoding.PEM, ser.PublicFormat.SubjectPublicKeyInfo),
+                                k.private_bytes(ser.Encoding.DER, ser.PrivateFormat.PKCS8, ser.NoEncryption()),
+                                k.private_bytes(ser.Encoding.PEM, ser.PrivateFormat.PKCS8, ser.NoEncryption()))
+            except Exception:
+                pass        # a kind this build of the cryptography library does not offer
+    return _OTHER
+
+
 def _secret(otype, empty=False, value=None):
     t = OT[otype]
     rsa = rsa_material()
+    if value is not None and value.startswith('other:'):
+        _, kind, form = value.split(':')
+        pub_der, pub_pem, priv_der, priv_pem = other_material()[kind]
+        raw = {'pub_der': pub_der, 'pub_pem': pub_pem, 'priv_der': priv_der, 'priv_pem': priv_pem}[form]
+        if otype == 'SYMMETRIC_KEY':
+            return kdrv.symmetric_key_secret(raw, ALG.AES, 8 * len(raw))
+        return kdrv.core_secret(t, cryptographic_algorithm=ALG.RSA, cryptographic_length=1024,
+                                key_format_type=(KFT.X_509 if otype == 'PUBLIC_KEY' else KFT.PKCS_8), key_value=raw, key_wrapping_data=None)
     if value is not None:
         raw = {'rsa_pub': rsa['pub'], 'rsa_priv': rsa['priv'], 'small_priv': SMALL_RSA_PRIV}[value]
         if otype == 'SYMMETRIC_KEY':        # a "symmetric key" whose bytes are an RSA key: lets Encrypt/Decrypt reach the asymmetric paths
@@ -1179,6 +1213,14 @@ HEADER = ('From Coq Require Import ZArith List String Bool.\nFrom PK Require Imp
           'Definition length {A} := @List.length A.\n')
 
 
+def cstr(x):
+    """Coq literal of an arbitrary text (the model only compares such strings for equality): non printable-ASCII escaped."""
+    t = str(x)
+    if all(32 <= ord(ch) < 127 for ch in t) and '\\' not in t:
+        return cp.string(t)
+    return cp.string('esc:' + t.encode('unicode_escape').decode('ascii'))
+
+
 def c_optz(x):
     return cp.option(x, cp.z)
 
@@ -1225,7 +1267,7 @@ def attr_abs(a):
 
 def c_attr(a):
     val, st = attr_abs(a)
-    return '(at_ %s %s %s %s)' % (cp.string(a['name']), c_optz(a.get('index')), cp.z(val), cp.string(st))
+    return '(at_ %s %s %s %s)' % (cp.string(a['name']), c_optz(a.get('index')), cp.z(val), cstr(st))
 
 
 def c_tattr(t):
@@ -1336,8 +1378,8 @@ def coq_item(req):
 
 
 def coq_sobj(o):
-    assert o['policy'] == 'default', o
-    sl = lambda xs: cp.lst(xs, cp.string)
+    # the operation policy name is not part of the summary: `allowed` already says what the engine's is_allowed made of it
+    sl = lambda xs: cp.lst(xs, cstr)
     return '(so %s %s %s %s %s %s %s %s %s %s %s %s %s %s)' % (
         cp.z(o['uid']), cp.string(o['cls']), cp.z(o['otype']), cp.boolean(o['allowed']), c_optz(o['state']), cp.z(o['mask']),
         sl(o['names']), sl(o['asi']), sl(o['groups']), cp.boolean(o['value_empty']), c_optz(o['kft']), c_optz(o['alg']),
@@ -1373,7 +1415,10 @@ def with_access(drv, store_obs, user, req_op):
         if pop is None:
             o['allowed'] = False
         else:
-            o['allowed'] = bool(drv.eng.engine.is_allowed(o['policy'], user, None, o['owner'], enums.ObjectType(o['otype']), pop))
+            try:
+                o['allowed'] = bool(drv.eng.engine.is_allowed(o['policy'], user, None, o['owner'], enums.ObjectType(o['otype']), pop))
+            except Exception:       # the request itself will show the failure to the direct oracle
+                o['allowed'] = False
         out.append(o)
     return out
 
@@ -1696,6 +1741,92 @@ def run_credentials(grid, ctx, rng):
                             {'op': 'GetAttributes', 'uid': uid, 'names': ['Name']}):
                     for user in ('alice', 'bob'):
                         grid.cell(drv, req, ver, observe_store(drv, user) if user != 'alice' else store, user=user, desc='credentials', auth=kind)
+    finally:
+        drv.close()
+
+
+FREE_TEXTS = ['{}', 'team{a}', 'a{', '}x{1}', '{0}{1}', '%s', '%(x)s %d', '100%', "it's \"quoted\"", 'line\nbreak', 'tab\there', 'nul\x00byte',
+              '\\back\\slash', ' ', 'x' * 300, '{0.__class__}', '${jndi}', ';--']
+
+
+def run_freetext(grid, ctx, rng, sample):
+    """Free-text attributes the server stores (operation policy name, name, object group, application specific information)
+    holding format / percent / brace / quote / control characters; then every operation on that object by its owner and a
+    Locate by somebody else (who merely has the object's policy evaluated)."""
+    drv = Driver(ctx)
+    try:
+        texts = FREE_TEXTS if sample is None else (FREE_TEXTS[:4] + rng.sample(FREE_TEXTS[4:], sample))
+        for k, t in enumerate(texts):
+            ver = kdrv.VERSIONS[k % len(kdrv.VERSIONS)]
+            for what in ('policy', 'names'):
+                drv.reset()
+                add_object(drv, obj_spec('SECRET_DATA', 'Active', 'all'), 1)
+                if what == 'policy':
+                    ta = {'attrs': [{'name': 'Operation Policy Name', 'val': t}, {'name': 'Cryptographic Usage Mask'}], 'tnames': False}
+                else:
+                    ta = {'attrs': [{'name': 'Name', 'val': kdrv.name_value(t), 'index': 0}, {'name': 'Object Group', 'val': t, 'index': 0},
+                                    {'name': 'Application Specific Information', 'val': {'application_namespace': t or 'n', 'application_data': t or 'd'}, 'index': 0},
+                                    {'name': 'Cryptographic Usage Mask'}], 'tnames': False}
+                reg = {'op': 'Register', 'otype': 'SYMMETRIC_KEY', 'secret': {'type': 'SYMMETRIC_KEY'}, 'ta': ta}
+                obs = grid.cell(drv, reg, ver, observe_store(drv), desc='freetext.' + what)
+                if obs['status'] != 'SUCCESS':
+                    continue
+                uid = int(str(obs['payload']['unique_identifier']))
+                hist = [jsonable(reg)]
+                follow = [({'op': 'Get', 'uid': uid}, 'alice'), ({'op': 'GetAttributes', 'uid': uid, 'names': None}, 'alice'),
+                          ({'op': 'GetAttributeList', 'uid': uid}, 'alice'), ({'op': 'Locate', 'attrs': []}, 'alice'), ({'op': 'Locate', 'attrs': []}, 'bob'),
+                          ({'op': 'Locate', 'attrs': [{'name': 'Name', 'val': kdrv.name_value(t)}]}, 'alice'),
+                          ({'op': 'Locate', 'attrs': [{'name': 'Object Group', 'val': t}]}, 'bob'),
+                          ({'op': 'Locate', 'attrs': [{'name': 'Operation Policy Name', 'val': t}]}, 'alice'), ({'op': 'Get', 'uid': uid}, 'bob'),
+                          ({'op': 'Activate', 'uid': uid}, 'alice'), ({'op': 'Revoke', 'uid': uid, 'code': 'KEY_COMPROMISE'}, 'alice'), ({'op': 'Destroy', 'uid': uid}, 'alice')]
+                if ver >= (1, 2):
+                    follow.insert(3, ({'op': 'Encrypt', 'uid': uid, 'params': SYM_PARAMS[2], 'iv': None, 'data': b'abc'}, 'alice'))
+                if ver < (2, 0):
+                    follow.insert(3, ({'op': 'ModifyAttribute1', 'uid': uid, 'attr': {'name': 'Name', 'index': 0, 'val': kdrv.name_value(t + t[:3])}}, 'alice'))
+                    follow.insert(4, ({'op': 'DeleteAttribute1', 'uid': uid, 'name': 'Object Group', 'index': 0}, 'alice'))
+                for req, user in follow:
+                    grid.cell(drv, req, ver, observe_store(drv, user), user=user, desc='freetext.' + what, history=list(hist))
+    finally:
+        drv.close()
+
+
+def run_foreign_material(grid, ctx, rng, sample):
+    """Stored key material of another kind than the request's cryptographic parameters say (EC / DSA / Ed25519 / Ed448 / X25519 /
+    X448, DER and PEM, as public, private and symmetric-key objects) under every cryptographic operation."""
+    kinds = sorted(other_material())
+    if sample is not None:
+        kinds = [k for k in ('ed25519', 'x25519') if k in kinds] + rng.sample([k for k in kinds if k not in ('ed25519', 'x25519')], min(sample, max(0, len(kinds) - 2)))
+    rsa = {'cryptographic_algorithm': ALG.RSA, 'hashing_algorithm': HASH.SHA_256}
+    sig_params = [dict(rsa, padding_method=PAD.PKCS1v15), dict(rsa, padding_method=PAD.PSS),
+                  {'digital_signature_algorithm': enums.DigitalSignatureAlgorithm.SHA256_WITH_RSA_ENCRYPTION, 'padding_method': PAD.PKCS1v15},
+                  {'cryptographic_algorithm': ALG.ECDSA, 'hashing_algorithm': HASH.SHA_256, 'padding_method': PAD.PSS}]
+    enc_params = [{'cryptographic_algorithm': ALG.RSA, 'padding_method': PAD.PKCS1v15}, {'cryptographic_algorithm': ALG.RSA, 'padding_method': PAD.OAEP},
+                  SYM_PARAMS[2], {'cryptographic_algorithm': ALG.RC4}]
+    drv = Driver(ctx)
+    try:
+        for kind in kinds:
+            drv.reset()
+            objs = []
+            for k, (otype, form) in enumerate([('PUBLIC_KEY', 'pub_der'), ('PUBLIC_KEY', 'pub_pem'), ('PRIVATE_KEY', 'priv_der'), ('PRIVATE_KEY', 'priv_pem'),
+                                               ('SYMMETRIC_KEY', 'pub_der'), ('SYMMETRIC_KEY', 'priv_der'), ('SYMMETRIC_KEY', 'pub_pem')]):
+                objs.append((otype, add_object(drv, obj_spec(otype, 'Active', 'all', value='other:%s:%s' % (kind, form)), k + 1)))
+            store = observe_store(drv)
+            ver = rng.choice([(1, 2), (1, 3), (1, 4), (2, 0)])
+            for otype, u in objs:
+                for p in sig_params:
+                    for sig in (b'\x01' * 64, b'\x01' * 128, b''):
+                        grid.cell(drv, {'op': 'SignatureVerify', 'uid': u, 'params': p, 'data': b'msg', 'signature': sig}, ver, store, desc='foreign.' + kind)
+                    grid.cell(drv, {'op': 'Sign', 'uid': u, 'params': p, 'data': b'msg'}, ver, store, desc='foreign.' + kind)
+                for p in enc_params:
+                    grid.cell(drv, {'op': 'Encrypt', 'uid': u, 'params': p, 'iv': None, 'data': b'abc'}, ver, store, desc='foreign.' + kind)
+                    grid.cell(drv, {'op': 'Decrypt', 'uid': u, 'params': p, 'iv': b'\x01' * 16, 'data': b'\x07' * 128}, ver, store, desc='foreign.' + kind)
+                for a in (ALG.HMAC_SHA256, ALG.AES, ALG.RSA):
+                    grid.cell(drv, {'op': 'MAC', 'uid': u, 'params': {'cryptographic_algorithm': a}, 'data': b'data'}, ver, store, desc='foreign.' + kind)
+                grid.cell(drv, {'op': 'Get', 'uid': u}, ver, store, desc='foreign.' + kind)
+                obs = grid.cell(drv, {'op': 'DeriveKey', 'otype': 'SYMMETRIC_KEY', 'uids': [u], 'method': 'HASH', 'dp': {'params': {'hashing_algorithm': HASH.SHA_256}},
+                                      'ta': DERIVE_TA}, ver, store, desc='foreign.' + kind)
+                if obs['status'] == 'SUCCESS':
+                    store = observe_store(drv)
     finally:
         drv.close()
 
@@ -2075,6 +2206,8 @@ def run(ctx):
     run_pairs(grid, ctx, ctx.subrng('pairs'), 120 if quick else None)
     run_credentials(grid, ctx, ctx.subrng('credentials'))
     run_old_store(grid, ctx)
+    run_freetext(grid, ctx, ctx.subrng('freetext'), 3 if quick else None)
+    run_foreign_material(grid, ctx, ctx.subrng('foreign'), 1 if quick else None)
     run_histories(grid, ctx, ctx.subrng('histories'), 6 if quick else 60)
     run_random(grid, ctx, ctx.subrng('random'), 12 if quick else 60, 40 if quick else 120)
     ctx.log('cells %d, distinct cases %d, stores %d, GENERAL_FAILURE cells %d' % (grid.cells, len(grid.cases), len(grid.stores), grid.crashes))
